@@ -256,7 +256,8 @@ def random_doc(rng, depth):
     if k == 2:
         return rng.choice([0, 1, -1, 2**63 - 1, -2**63, 2**64 - 1, 2**53, 42, rng.below(10**9)])
     if k == 3:
-        return rng.choice([1.5, -0.0, 1e300, 5e-324, 0.1, 1e-7, 123456.789])
+        return rng.choice([1.5, -0.0, 1e300, 5e-324, 0.1, 1e-7, 123456.789, 0.10000000149011612, 0.30000001192092896, 0.699999988079071,
+                           2.000000238418579, 1.100000023841858, 16777217.0, 4294967296.5])
     if k in (4, 5, 6):
         return rng.choice(["NaN", "Infinity", "-Infinity", "AQID", "", "x", "true", "1", "héllo", UUID])
     if k in (7, 8):
